@@ -62,3 +62,58 @@ Example C03_node_premises_satisfiable :
   ~ (exists D, length D = 1%nat /\ node_decomposition nxV nxE nxfv [3%N] D).
 Proof. exact nx_premises. Qed.
 Print Assumptions C03_node_premises_satisfiable.
+
+(* ---------------------------------------------------------------------------------------------------------------------------------- *)
+(* WITH additional_starts / additional_ends (NodeFlowST.v).  The caller passes S, T: a node path may start at any node of S as well as
+   at a node without in-edges and end at any node of T as well as at a node without out-edges (DilworthNode.nwalk V E S T); the
+   library attaches the global source to v.0 for v in S and v.1 to the global sink for v in T (node_instST: Aug.aug_edges with
+   map x0 S / map x1 T, cf. C10_additional_starts_attach_exactly).  The theorems above are the instances S = T = []. *)
+From FP Require Import Aug NodeFlowST.
+
+Theorem C03_node_decomposition_iff_with_starts_ends :
+  forall (V : list node) (E : list PathEnc.edge) (S T : list node) (s t : node) (topo : list node) (fv : node -> Z) (ign : list node) (wmax : Z),
+  ~ In s (expV V) -> ~ In t (expV V) -> s <> t -> (forall e, In e E -> In (fst e) V /\ In (snd e) V) ->
+  (forall u v, In (u, v) E -> (posn topo u < posn topo v)%nat) -> incl V topo ->
+  (forall v, In v V -> ~ In v ign -> (fv v <= wmax)%Z) -> (0 <= wmax)%Z ->
+  forall k, (exists D, length D = k /\ node_decompositionST V E S T fv ign D) <->
+            (exists P w, decomposition (node_instST V E S T s t fv ign wmax k) P w).
+Proof. exact node_decomposition_iffST. Qed.
+Print Assumptions C03_node_decomposition_iff_with_starts_ends.
+
+Theorem C03_node_minflowdecomp_returns_the_minimum_with_starts_ends :
+  forall (V : list node) (E : list PathEnc.edge) (S T : list node) (s t : node) (topo : list node) (fv : node -> Z) (ign : list node) (wmax : Z)
+         (feasible : nat -> bool) (lb : nat) (sts : list raw),
+  NoDup V -> NoDup E -> (forall e, In e E -> In (fst e) V /\ In (snd e) V) ->
+  (forall u v, In (u, v) E -> (posn topo u < posn topo v)%nat) -> incl V topo ->
+  ~ In s (expV V) -> ~ In t (expV V) -> s <> t ->
+  (forall v, In v V -> ~ In v ign -> (fv v <= wmax)%Z) -> (0 <= wmax)%Z ->
+  (forall k, feasible k = true <-> exists a, sat a (encode_kfd (node_instST V E S T s t fv ign wmax k))) ->
+  (forall i, (i < Datatypes.S (length (expE V E)) - lb)%nat -> exists x, nth_error sts i = Some x /\
+             status_of x = if feasible (lb + i)%nat then Optimal else Infeasible) ->
+  (forall k, (k < lb)%nat -> feasible k = false) ->
+  (exists D0, (length D0 <= length (expE V E))%nat /\ node_decompositionST V E S T fv ign D0) ->
+  exists kopt,
+    so_res (mpc_solve true lb (Datatypes.S (length (expE V E))) sts) = Solved kopt /\
+    (exists D, length D = kopt /\ node_decompositionST V E S T fv ign D) /\
+    (forall k, (k < kopt)%nat -> ~ exists D, length D = k /\ node_decompositionST V E S T fv ign D).
+Proof. exact node_minflowdecomp_returns_the_minimum_ST. Qed.
+Print Assumptions C03_node_minflowdecomp_returns_the_minimum_with_starts_ends.
+
+(* S = T = [] gives back the notions of the first part *)
+Theorem C03_node_decomposition_without_starts_ends : forall V E fv ign D,
+  node_decompositionST V E [] [] fv ign D <-> node_decomposition V E fv ign D.
+Proof. exact node_decomposition_nil_iff. Qed.
+Print Assumptions C03_node_decomposition_without_starts_ends.
+
+(* non-vacuity: the chain 1 -> 2 -> 3 with node weights 2, 5, 5: without additional starts no node decomposition exists at all; with
+   the inner node 2 as additional start there is one with 2 paths (2-3 with weight 3, 1-2-3 with weight 2) and none with 1 *)
+Example C03_node_additional_start_needed :
+  NoDup sxV /\ NoDup sxE /\ (forall e, In e sxE -> In (fst e) sxV /\ In (snd e) sxV) /\
+  (forall u v, In (u, v) sxE -> (posn sxV u < posn sxV v)%nat) /\ incl sxV sxV /\
+  ~ In 100%N (expV sxV) /\ ~ In 101%N (expV sxV) /\ 100%N <> 101%N /\
+  (forall v, In v sxV -> ~ In v [] -> (sxfv v <= 5)%Z) /\
+  (forall D, ~ node_decompositionST sxV sxE [] [] sxfv [] D) /\
+  node_decompositionST sxV sxE [2%N] [] sxfv [] sxD /\ (length sxD <= length (expE sxV sxE))%nat /\
+  ~ (exists D, length D = 1%nat /\ node_decompositionST sxV sxE [2%N] [] sxfv [] D).
+Proof. exact sx_premises. Qed.
+Print Assumptions C03_node_additional_start_needed.
